@@ -106,21 +106,28 @@ type Ref struct {
 // every published configuration unchanged and keeps the value (which shares its slices
 // with what the server goes on to use) together with a snapshot taken at that moment.
 type relay struct {
+	w     *world.World
 	out   chan config.ServerConfig
 	mu    sync.Mutex
 	vals  []config.ServerConfig
 	snaps []string
 }
 
-func newRelay(in chan config.ServerConfig) *relay {
-	r := &relay{out: make(chan config.ServerConfig)}
+func newRelay(w *world.World, in chan config.ServerConfig) *relay {
+	r := &relay{w: w, out: make(chan config.ServerConfig)}
 	go func() {
 		for v := range in {
 			r.mu.Lock()
 			r.vals = append(r.vals, v)
 			r.snaps = append(r.snaps, Canon(v))
+			k := len(r.vals) - 1
 			r.mu.Unlock()
 			r.out <- v
+			// the loader has taken the k-th configuration the front end accepted; once the
+			// system is quiescent with nothing parked it has finished dealing with it
+			if w != nil && !w.Quiet {
+				w.Rec(world.Ev{Actor: "loader", Kind: "config-taken", A: int64(k)})
+			}
 		}
 	}()
 	return r
@@ -205,7 +212,7 @@ func BuildRef(ctx context.Context, w *world.World, lg *Logger, kc *Keychain, for
 	if err != nil {
 		return nil, err
 	}
-	rl := newRelay(src.Config())
+	rl := newRelay(w, src.Config())
 	ld, err := loader.NewLoader(ctx, rl, opts...)
 	if err != nil {
 		return nil, err
